@@ -510,6 +510,28 @@ func ruleLegacyMatch(c *Ctx, r *Rule) {
 			}
 		}
 	}
+	// the other spelling: `if info.MatchInvert { return !match }; return match`
+	if !okInv {
+		neg, plain := false, false
+		for _, ret := range returnsOf(top) {
+			v := retResults(ret)[0]
+			underInvert := func(pol bool) bool {
+				for _, l := range c.unitGuards(ret) {
+					if _, f, _, okf := loadedField(l.v); okf && f == "MatchInvert" && l.pol == pol {
+						return true
+					}
+				}
+				return false
+			}
+			if u, ok := v.(*ssa.UnOp); ok && u.Op == token.NOT && underInvert(true) {
+				neg = true
+			}
+			if _, isNot := v.(*ssa.UnOp); !isNot && underInvert(false) {
+				plain = true
+			}
+		}
+		okInv = neg && plain
+	}
 	r.Ob(okInv, c.fnName(top)+"|invert", top.Pos(), "match_invert negates the verdict, and only then")
 	// modes: or-modes go to the or evaluator, the rest to the and evaluator, prefix flag from the *Prefix modes
 	var orCall, andCall ssa.CallInstruction
